@@ -198,9 +198,7 @@ impl S3 for FileSystem {
         let mut objects: Vec<(PathBuf, String)> = Vec::new();
         for object in input.delete.objects {
             let path = self.get_object_path(&input.bucket, &object.key)?;
-            if path.exists() {
-                objects.push((path, object.key));
-            }
+            objects.push((path, object.key));
         }
 
         if self.get_bucket_path(&input.bucket)?.exists().not() {
@@ -209,7 +207,11 @@ impl S3 for FileSystem {
 
         let mut deleted_objects: Vec<DeletedObject> = Vec::new();
         for (path, key) in objects {
-            try_!(fs::remove_file(path).await);
+            // deleting a key that does not exist (or that the request names a second time) succeeds:
+            // every requested key is reported as deleted
+            if path.exists() {
+                try_!(fs::remove_file(path).await);
+            }
 
             let deleted_object = DeletedObject {
                 key: Some(key),
